@@ -1253,13 +1253,21 @@ def entails(repo: Repo, f: FuncInfo | str, path: Path, key: str) -> Optional[boo
     return Interp(repo, fi, Config()).implied(key, path)
 
 
-def completions(path: Path, patterns: dict[str, str]) -> Iterable[dict[str, Any]]:
-    """All valuations of the named spec atoms consistent with the path (undecided atoms take both values)."""
+def completions(path: Path, patterns: dict, entail: Optional[Callable[[str], Optional[bool]]] = None) -> Iterable[dict[str, Any]]:
+    """All valuations of the named spec atoms consistent with the path (undecided atoms take both values).
+
+    ``patterns[name]`` is a regex over atom keys, or a pair (regex, canonical key): with a canonical key the small
+    theory is consulted first (an atom the path never tested may still be implied, e.g. `x is None` => not x).
+    """
     names = list(patterns)
     fixed = {}
     free = []
     for n in names:
-        v = path.atom(patterns[n])
+        pat = patterns[n]
+        rx, key = (pat, None) if isinstance(pat, str) else pat
+        v = path.atom(rx)
+        if v is None and key is not None and entail is not None:
+            v = entail(key)
         if v is None:
             free.append(n)
         else:
